@@ -66,6 +66,22 @@ def bulk_schedules():
     return out
 
 
+def rawless_schedules():
+    """tasks without raw_task_info (what a sender older than that field sends): namespace / workflow / run id are in the task
+    attributes only. The proxy must still deliver every task it reads and must not acknowledge past one it did not deliver."""
+    post = [{"c": "drain"}, {"c": "tick"}, {"c": "tick"}, {"c": "final"}]
+    return [
+        {"id": "rawless-1", "ns": 1, "nt": 2, "route": {"1": [1, 2]}, "late": [], "rawless": True, "stride": 1,
+         "cmds": [{"c": "tasks", "s": 1, "k": 2}, {"c": "wm", "s": 1}] + post},
+        {"id": "rawless-2", "ns": 1, "nt": 2, "route": {"1": [2, 2, 1]}, "late": [], "rawless": True, "stride": 3,
+         "cmds": [{"c": "tasks", "s": 1, "k": 1}, {"c": "tasks", "s": 1, "k": 2}, {"c": "wm", "s": 1}] + post},
+    ]
+
+
+def bulk_and_rawless():
+    return bulk_schedules() + rawless_schedules()
+
+
 def bulk_fault_schedules():
     """the same with a break and re-open of the OTHER target stream first (C04 judges 'early' only in runs with a fault)."""
     out = []
@@ -79,18 +95,18 @@ def bulk_fault_schedules():
 
 
 PROFILES = {
-    ("C01", "quick"): dict(extra=bulk_schedules, design=[("c01.cfg", 300)],
+    ("C01", "quick"): dict(extra=bulk_and_rawless, design=[("c01.cfg", 300)],
                            gen=[("sim_c01.cfg", "bfs", 1, 2, [], 900), ("sim_c02.cfg", "bfs", 1, 2, [2], 500),
                                 ("sim_c01_t.cfg", ("sim", 60, 60), 2, 2, [], 300),
                                 ("sim_c03.cfg", ("sim", 600, 80), 1, 2, [], 200)]),
-    ("C01", "thorough"): dict(extra=bulk_schedules, design=[("c01_t1.cfg", 2400), ("c01_t2.cfg", 2400), ("c02b_q.cfg", 1200), ("c02.cfg", 1800)],
+    ("C01", "thorough"): dict(extra=bulk_and_rawless, design=[("c01_t1.cfg", 2400), ("c01_t2.cfg", 2400), ("c02b_q.cfg", 1200), ("c02.cfg", 1800)],
                               gen=[("sim_c01.cfg", "bfs", 1, 2, [], 16000), ("sim_c02.cfg", "bfs", 1, 2, [2], 8000),
                                    ("sim_c01_t.cfg", ("sim", 500, 60), 2, 2, [], 8000)]),
-    ("C02", "quick"): dict(design=[("c02_q.cfg", 300), ("c02b_q.cfg", 600)],
+    ("C02", "quick"): dict(extra=rawless_schedules, design=[("c02_q.cfg", 300), ("c02b_q.cfg", 600)],
                            gen=[("sim_c02.cfg", "bfs", 1, 2, [2], 700), ("sim_c02b.cfg", "bfs", 2, 2, [], 500),
                                 ("sim_c02i.cfg", ("sim", 40, 60), 1, 2, [], 48)],
                            post=["drain"]),
-    ("C02", "thorough"): dict(design=[("c02.cfg", 1800), ("c02_t1.cfg", 3600), ("c02b.cfg", 3600)],
+    ("C02", "thorough"): dict(extra=rawless_schedules, design=[("c02.cfg", 1800), ("c02_t1.cfg", 3600), ("c02b.cfg", 3600)],
                               gen=[("sim_c02.cfg", "bfs", 1, 2, [2], 12000), ("sim_c02b.cfg", "bfs", 2, 2, [], 8000),
                                    ("sim_c02_t.cfg", ("sim", 400, 70), 2, 3, [3], 6000),
                                    ("sim_c02i.cfg", ("sim", 300, 60), 1, 2, [], 480)],
@@ -325,6 +341,9 @@ def conform(c, runs, tag, max_iter=2):
 def classify(run, li, clause, s, tid):
     """Cause-level signature of a violation (labels only; the verdict is the monitor's)."""
     sig = {"module": "Routing", "clause": clause}
+    if run[0].get("rawless"):
+        sig["cause"] = "task-without-raw-task-info"
+        return sig
     if clause != "early":
         return sig
     upto = run[:li + 1]
@@ -461,7 +480,7 @@ def run(c, a):
         c.violation(sig, "%s at %s (source %d id %d) in run %s" % (clause, json.dumps(run_ev[li]), s, tid, run_ev[0].get("id")),
                     {"kind": "routing-trace", "clause": clause, "trace": sched})
     # 5. conformance of the recorded runs with the design spec
-    conf_runs = [r for r in runs_only if not str(r[0].get("id", "")).startswith("bulk-")]
+    conf_runs = [r for r in runs_only if not str(r[0].get("id", "")).startswith("bulk-") and not r[0].get("rawless")]
     if len(conf_runs) < len(runs_only):
         c.notes.append("%d constructed bulk runs (> 1024 tasks in flight) are judged by the monitor only: the trace spec is bounded "
                        "to 400 ids" % (len(runs_only) - len(conf_runs)))
